@@ -1,15 +1,21 @@
 """dmc checks for nesting: C06 (nested waits never starve), C16 (parallel_invoke exactly once), C46 (inline depth bounded).
-Harnesses: harness/c06_nesting.cpp (nest, pinvoke, depth); notes: harness/c06_nesting.notes.md."""
+Harnesses: harness/c06_nesting.cpp (nest, pinvoke, depth); notes: harness/c06_nesting.notes.md.
+
+A parameter value '*' makes the harness pick the value with mc::choose, i.e. every listed value is explored inside one
+run (one process). Variants of a configuration are folded this way because process start-up, not exploration, dominates
+the cost of small configurations when the machine is loaded."""
 import itertools as _it
 from specs import reg, McRun, product, MC_ASSUME, need_cover, need_outcomes  # noqa: F401
 
 BIN = 'c06_nesting'
 RULE = 'one evaluation = one complete execution of one program configuration under one schedule; distinct_nontrivial = distinct scheduler states (reads-from history hashes) with more than one continuation'
+ANY = '*'
 
 
 # ---------------------------------------------------------------------------------------------- C06
 # inner kinds: T TaskSet, C ConcurrentTaskSet heavy, L ConcurrentTaskSet lightweight, F async futures,
 #              P parallel_for (waiting), B scheduleBulk + wait
+# o (outer set) in T|C|L, '*' = all three; fq bit0 outer forced to the queue, bit1 inner forced, '*' = {1, 3, 0}
 KINDS = 'TCLFPB'
 WP0 = {'wakepick_cost': 0}
 
@@ -28,61 +34,58 @@ def c06_runs(tier):
         seen.add(key)
         runs.append(McRun(BIN, 'nest', dict(n=n, prog=prog, o=o, fq=fq, k=k), bound=bound, mode=mode, opts=WP0, budget=budget))
 
+    add(0, 'TCLFPB', ANY, ANY, 0)
     if tier == 'quick':
-        # N=1: every single inner kind under every outer set kind (outer size N), and every pair with a steal-ring
-        # user (C or F) under the heavy outer set (outer size N+1); outer tasks forced to the queue so that the
-        # worker, not T0, ends up inside the inner wait
+        # one worker, one outer task (outer size N): every inner kind x outer set kind x forcing variant
         for kind in KINDS:
-            for o in 'TCL':
-                add(1, kind, o, 1, 1)
+            add(1, kind, ANY, ANY, 1, budget=20)
+        add(1, 'CF', 'C', 1, 1, mode='tsan', budget=25)
+        add(1, 'TL', 'T', 1, 1, mode='asan', budget=25)
+        # two workers with N and N+1 outer tasks on the heavy (steal-ring) outer set
+        for prog in ('CC', 'CT', 'TT'):
+            add(2, prog, 'C', 1, 1, budget=20)
+        add(2, 'CCC', 'C', 1, 1, budget=20)
+        # one worker, two outer tasks (outer size N+1): every pair containing a steal-ring user (C or F)
         for prog in _multisets(KINDS, 2):
             if 'C' in prog or 'F' in prog:
-                add(1, prog, 'C', 1, 1)
-        for prog in ('CC', 'CF', 'TL'):
-            add(1, prog, 'C', 3, 1)
-            add(1, prog, 'T', 0, 1)
-        # N=2, outer size N: the cheap kinds; outer size N+1: three heavy sets
-        for prog in ('TT', 'CC', 'LL', 'CT', 'CL'):
-            add(2, prog, 'C', 1, 1, budget=30)
-        add(2, 'CCC', 'C', 1, 1, budget=30)
-        add(0, 'TCLFPB', 'C', 0, 0)
+                add(1, prog, 'C', ANY, 1, budget=15)
     else:
         for size in (1, 2):
             for prog in _multisets(KINDS, size):
-                for o in 'TCL':
-                    for fq in (0, 1, 3):
-                        add(1, prog, o, fq, 1, budget=30)
-        # bound 2 on the smallest: one worker, one or two outer tasks, the set kinds
-        for prog in ('T', 'C', 'L', 'F', 'CC', 'CT', 'CL', 'TT'):
-            for o in 'TC':
-                add(1, prog, o, 1, 2, budget=60)
+                add(1, prog, ANY, ANY, 1, budget=40)
+        add(1, 'CF', 'C', 1, 1, mode='tsan', budget=60)
+        add(1, 'TL', 'T', 1, 1, mode='asan', budget=60)
+        # bound 2 on the smallest: one worker, one or two outer tasks
+        for prog in ('T', 'C', 'L', 'F'):
+            add(1, prog, ANY, 1, 2, budget=60)
+        for prog in ('CC', 'CT'):
+            add(1, prog, 'C', 1, 2, budget=60)
         for prog in _multisets('TCLF', 2):
-            for o in 'TCL':
-                add(2, prog, o, 1, 1, budget=40)
-            add(2, prog, 'C', 3, 1, budget=40)
+            add(2, prog, ANY, 1, 1, budget=45)
+        for prog in ('CC', 'CF', 'FF'):
+            add(2, prog, 'C', 3, 1, budget=30)
         for prog in _multisets('TCL', 3):
-            add(2, prog, 'C', 1, 1, budget=40)
+            add(2, prog, 'C', 1, 1, budget=25)
         for prog in ('PP', 'BB', 'CP', 'CB', 'FP', 'CCF', 'CFF'):
-            add(2, prog, 'C', 1, 1, budget=60)
+            add(2, prog, 'C', 1, 1, budget=30)
         for prog in ('CC', 'TC'):
-            add(2, prog, 'C', 1, 1, k=2, budget=60)
-        add(0, 'TCLFPB', 'C', 0, 0)
-        add(0, 'TCLFPB', 'T', 3, 0)
-    add(1, 'CF', 'C', 1, 1, mode='tsan', budget=60)
-    add(1, 'TL', 'T', 1, 1, mode='asan', budget=60)
+            add(2, prog, 'C', 1, 1, k=2, budget=30)
     return runs
 
 
-reg('C06', level='model_checking', runs=c06_runs, quick_budget_s=200, thorough_budget_s=1300,
+reg('C06', level='model_checking', runs=c06_runs, quick_budget_s=240, thorough_budget_s=1300,
     technique='stateless model checking of real pools running acyclic two-level nesting programs: every worker (and T0) ends up inside a wait; all interleavings up to a deviation bound with free futex-waiter picks; progress oracle',
-    level_text='Programs from the grammar outer set in {TaskSet, ConcurrentTaskSet heavy, ConcurrentTaskSet lightweight} x outer tasks each creating one inner construct from {TaskSet, ConcurrentTaskSet heavy/lightweight, async futures, waiting parallel_for, scheduleBulk+wait} with 1-2 leaves and waiting on it, outer and/or inner submissions optionally forced to the queue; pools of 1 and 2 workers with N and N+1 outer tasks (plus a zero-thread pool once); every interleaving with <=1 deviation, futex waiter picks free, backstop timeouts allowed (thorough: the whole grammar for N=1 with 1-2 outer tasks, bound 2 on the smallest N=1 shapes, all pairs over {T,C,L,F} and all triples over {T,C,L} for N=2). Oracle: the outer wait returns and the pool can be destroyed - a deadlock, livelock or step-horizon verdict is the violation; coverage guard: the state "every worker is inside an inner wait" is reached, also with a non-empty steal ring.',
-    level_note='SC interleavings; nesting depth 2 only; timeouts are allowed to fire (the statement is about termination, not latency), none is needed on the explored schedules if timeouts_fired is 0; a TSan and an ASan leg re-run two small shapes.',
+    level_text='Programs from the grammar outer set in {TaskSet, ConcurrentTaskSet heavy, ConcurrentTaskSet lightweight} x outer tasks each creating one inner construct from {TaskSet, ConcurrentTaskSet heavy/lightweight, async futures, waiting parallel_for, scheduleBulk+wait} with 1-2 leaves and waiting on it, outer and/or inner submissions optionally forced to the queue; pools of 1 and 2 workers with N and N+1 outer tasks (plus a zero-thread pool); every interleaving with <=1 deviation, futex waiter picks free, backstop timeouts allowed. Quick: N=1 every single kind x outer kind x forcing variant, every pair containing a heavy set or a future; N=2 four shapes. Thorough: the whole grammar for N=1 with 1-2 outer tasks, bound 2 on the smallest N=1 shapes, all pairs over {T,C,L,F} x outer kinds and all triples over {T,C,L} for N=2. Oracle: the outer wait returns and the pool can be destroyed - a deadlock, livelock or step-horizon verdict is the violation; coverage guard: the state "every worker is inside an inner wait" is reached, also with a non-empty steal ring.',
+    level_note='SC interleavings; nesting depth 2 only; timeouts are allowed to fire (the statement is about termination, not latency); runs that hit their time budget are reported as not exhaustive; a TSan and an ASan leg re-run two small shapes.',
     design_ref='DESIGN.md section 4, C06', assumptions=MC_ASSUME, rule=RULE,
     guards=[need_cover('all_workers_in_wait', 'steal_ring_nonempty_at_wait', 't0_in_inner_wait', 'inner_T', 'inner_C', 'inner_L', 'inner_F', 'inner_P', 'inner_B'),
             need_outcomes(20)])
 
 
 # ---------------------------------------------------------------------------------------------- C16
+SHAPES = [('flat', 1, 1), ('flat', 2, 1), ('flat', 3, 1), ('flat', 4, 1), ('bin', 2, 1), ('bin', 2, 2), ('bin', 2, 3), ('chain', 2, 4), ('rchain', 2, 4)]
+
+
 def c16_runs(tier):
     runs, seen = [], set()
 
@@ -93,94 +96,108 @@ def c16_runs(tier):
         seen.add(key)
         runs.append(McRun(BIN, 'pinvoke', dict(n=n, shape=shape, a=a, d=d, mult=mult, cost=cost), bound=bound, mode=mode, budget=budget))
 
-    shapes = [('flat', 1, 1), ('flat', 2, 1), ('flat', 3, 1), ('flat', 4, 1), ('bin', 2, 1), ('bin', 2, 2), ('bin', 2, 3), ('chain', 2, 4), ('rchain', 2, 4)]
+    add(0, ANY, 0, 0, ANY, ANY, 0)  # zero-thread pool: 9 shapes x 2 multipliers x 2 costs, one execution each
     if tier == 'quick':
-        for shape, a, d in shapes:
-            for mult in (1, 4):
-                add(0, shape, a, d, mult, 'h', 0)
-                add(1, shape, a, d, mult, 'h', 1)
-            add(1, shape, a, d, 4, 'l', 1)
+        for shape, a, d in SHAPES:
+            add(1, shape, a, d, ANY, ANY, 1, budget=20)
+        add(1, 'bin', 2, 2, 1, 'h', 1, mode='tsan', budget=25)
+        add(1, 'flat', 3, 1, 4, 'l', 1, mode='asan', budget=25)
         for shape, a, d in (('flat', 2, 1), ('flat', 3, 1), ('bin', 2, 2), ('chain', 2, 4)):
-            add(2, shape, a, d, 1, 'h', 1, budget=30)
-        add(2, 'flat', 4, 1, 4, 'h', 1, budget=30)
-        add(2, 'flat', 2, 1, 4, 'l', 1, budget=30)
+            add(2, shape, a, d, ANY, 'h', 1, budget=25)
     else:
-        for shape, a, d in shapes:
-            for mult in (1, 4):
-                for cost in 'hl':
-                    add(0, shape, a, d, mult, cost, 0)
-                    add(1, shape, a, d, mult, cost, 2, budget=60)
-                    add(2, shape, a, d, mult, cost, 1, budget=45)
-        add(2, 'flat', 2, 1, 1, 'h', 2, budget=150)
-        add(2, 'flat', 3, 1, 4, 'h', 2, budget=150)
-        add(1, 'bin', 3, 2, 1, 'h', 1)
-        add(1, 'bin', 4, 2, 4, 'h', 1)
-    add(1, 'bin', 2, 2, 1, 'h', 1, mode='tsan', budget=60)
-    add(1, 'flat', 3, 1, 4, 'l', 1, mode='asan', budget=60)
+        for shape, a, d in SHAPES:
+            add(1, shape, a, d, ANY, ANY, 2, budget=60)
+        add(1, 'bin', 2, 2, 1, 'h', 1, mode='tsan', budget=60)
+        add(1, 'flat', 3, 1, 4, 'l', 1, mode='asan', budget=60)
+        for shape, a, d in SHAPES:
+            add(2, shape, a, d, ANY, ANY, 1, budget=50)
+        add(2, 'flat', 2, 1, 1, 'h', 2, budget=120)
+        add(2, 'flat', 3, 1, 4, 'h', 2, budget=120)
+        add(1, 'bin', 3, 2, ANY, 'h', 1, budget=40)
+        add(1, 'bin', 4, 2, ANY, 'h', 1, budget=40)
     return runs
 
 
-reg('C16', level='model_checking', runs=c16_runs, quick_budget_s=200, thorough_budget_s=1300,
+reg('C16', level='model_checking', runs=c16_runs, quick_budget_s=240, thorough_budget_s=1300,
     technique='stateless model checking of parallel_invoke on real pools: flat calls of arity 1-4 and recursive divide-and-conquer shapes, all interleavings up to a deviation bound, per-functor invocation/thread/completion bookkeeping',
-    level_text='parallel_invoke(ConcurrentTaskSet&, f1..fk) for k=1..4 flat; binary recursion with 1-3 levels (2, 6, 14 functors); left-deep chain (the scheduled functor recurses) and right-deep chain (the inline functor recurses) of 4 levels; pools of 0, 1, 2 workers; stealingLoadMultiplier 1 and 4; TaskCost heavy and lightweight; every interleaving with <=1 deviation (thorough: <=2 deviations for every shape on one worker and for the flat arity-2/3 calls on two workers, <=1 for everything on two workers). Oracle: a functor never starts twice nor after wait() returned; when a parallel_invoke call returns, its last functor has finished and ran on the calling thread; after ConcurrentTaskSet::wait() every functor has run exactly once and finished; coverage guard: siblings were seen running inline on the caller, pending at return, and on another thread.',
+    level_text='parallel_invoke(ConcurrentTaskSet&, f1..fk) for k=1..4 flat; binary recursion with 1-3 levels (2, 6, 14 functors); left-deep chain (the scheduled functor recurses) and right-deep chain (the inline functor recurses) of 4 levels; pools of 0, 1, 2 workers; stealingLoadMultiplier 1 and 4; TaskCost heavy and lightweight; every interleaving with <=1 deviation (quick: all shapes on 0-1 workers, four shapes on 2 workers; thorough: <=2 deviations for every shape on one worker and for the flat arity-2/3 calls on two workers, <=1 for every shape on two workers, plus ternary and 4-ary two-level recursion). Oracle: a functor never starts twice nor after wait() returned; when a parallel_invoke call returns, its last functor has finished and ran on the calling thread; after ConcurrentTaskSet::wait() every functor has run exactly once and finished; coverage guard: siblings were seen running inline on the caller, pending at return, and on another thread.',
     level_note='the only overloads in parallel_invoke.h take a ConcurrentTaskSet; the documented contract is "does not call wait(), the caller drives synchronisation, the last functor runs inline on the calling thread" - exactly what the oracle demands. SC interleavings; TSan and ASan legs on two shapes.',
     design_ref='DESIGN.md section 4, C16', assumptions=MC_ASSUME, rule=RULE,
     guards=[need_cover('sibling_ran_inline_on_caller', 'sibling_pending_at_return', 'sibling_on_other_thread'), need_outcomes(12)])
 
 
 # ---------------------------------------------------------------------------------------------- C46
-def c46_configs():
-    """(params) for every program family x pool size; the inline paths are forced with load multipliers of 1"""
-    cfgs = []
+DEFAULT_ONLY = {'free_switch_cost': 1}  # with bound 0: exactly the canonical schedule (switches at blocking points are not varied)
+
+
+def c46_families():
+    """one entry per program family x pool size; '*' folds the variants (load multipliers 1 = inline path forced, and the defaults)"""
+    fams = []
     for N in (0, 1, 2):
-        for mult in (1, 32):
-            cfgs.append(dict(prog='sched_pool', N=N, mult=mult))
-        for smult in (1, 4):
-            if N < 2:  # a TaskSet may be used by one thread at a time: with two workers the chain itself would break that rule
-                cfgs.append(dict(prog='sched_ts', N=N, smult=smult))
-            cfgs.append(dict(prog='sched_cts', N=N, smult=smult))
-            cfgs.append(dict(prog='sched_ctsl', N=N, smult=smult))
-        for sched in 'ptc':
-            cfgs.append(dict(prog='then_unready', N=N, sched=sched, rel=0))
-            if N > 0:
-                cfgs.append(dict(prog='then_unready', N=N, sched=sched, rel=1))
-        cfgs.append(dict(prog='then_ready', N=N, sched='p'))
-        cfgs.append(dict(prog='pipe', N=N))
-        cfgs.append(dict(prog='graph_pf', N=N))
-        cfgs.append(dict(prog='graph_cts', N=N))
-        cfgs.append(dict(prog='comb_pf', N=N))
-        cfgs.append(dict(prog='comb_cts', N=N, lf=30))
-        cfgs.append(dict(prog='comb_cts', N=N, lf=0))
-    cfgs.append(dict(prog='graph_st', N=1))
-    cfgs.append(dict(prog='comb_st', N=1))
-    return cfgs
+        fams.append(dict(prog='sched_pool', N=N, mult=ANY))
+        if N < 2:  # a TaskSet may be used by one thread at a time: with two workers the chain itself would break that rule
+            fams.append(dict(prog='sched_ts', N=N, smult=ANY))
+        fams.append(dict(prog='sched_cts', N=N, smult=ANY))
+        fams.append(dict(prog='sched_ctsl', N=N, smult=ANY))
+        fams.append(dict(prog='then_unready', N=N, sched=ANY, rel=ANY if N else 0))
+        fams.append(dict(prog='then_ready', N=N, sched='p'))
+        fams.append(dict(prog='pipe', N=N))
+        fams.append(dict(prog='graph_pf', N=N))
+        fams.append(dict(prog='graph_cts', N=N))
+        fams.append(dict(prog='comb_pf', N=N))
+        fams.append(dict(prog='comb_cts', N=N, lf=ANY))
+    fams.append(dict(prog='graph_st', N=1))
+    fams.append(dict(prog='comb_st', N=1))
+    return fams
 
 
 def c46_runs(tier):
     runs = []
-    big = (128, 256) if tier == 'quick' else (128, 256, 512, 1024, 2048)
-    for cfg in c46_configs():
+    big = (256,) if tier == 'quick' else (64, 128, 256, 512, 1024, 2048)
+    for fam in c46_families():
         for n in big:
-            if tier == 'quick' and n == 128 and (cfg.get('mult') == 32 or cfg.get('smult') == 4 or cfg.get('sched') in ('t', 'c') or cfg.get('lf') == 0):
+            runs.append(McRun(BIN, 'depth', dict(fam, n=n, n0=64), bound=0, opts=DEFAULT_ONLY, budget=40))
+        if tier == 'quick' and (fam['prog'], fam['N']) in (('sched_cts', 1), ('sched_ctsl', 2), ('pipe', 1), ('pipe', 2), ('comb_pf', 1)):
+            runs.append(McRun(BIN, 'depth', dict(fam, n=64, n0=64), bound=0, opts=DEFAULT_ONLY, budget=40))
+    runs.insert(4, McRun(BIN, 'depth', dict(prog='pipe', N=1, n=6), bound=0, mode='tsan', budget=40))
+    runs.insert(5, McRun(BIN, 'depth', dict(prog='then_unready', sched='c', rel=1, N=1, n=4), bound=0, mode='asan', budget=40))
+    runs.insert(6, McRun(BIN, 'depth', dict(prog='sched_cts', N=1, n=96, n0=64), bound=0, mode='asan', opts=DEFAULT_ONLY, budget=40))
+    # all single-deviation schedules of small programs (ceiling only: nothing can be compared below saturation)
+    small = [(1, 4)] if tier == 'quick' else [(1, 1), (1, 2), (1, 4), (1, 8), (2, 2), (2, 4)]
+    for N, n in small:
+        for cfg in (dict(prog='sched_pool'), dict(prog='sched_cts'), dict(prog='sched_ctsl'), dict(prog='then_unready', sched='p', rel=1),
+                    dict(prog='pipe'), dict(prog='comb_cts', lf=0)):
+            if N == 2 and cfg['prog'] in ('pipe', 'comb_cts') and n > 2:
                 continue
-            runs.append(McRun(BIN, 'depth', dict(cfg, n=n, n0=64), bound=0, budget=40))
-    # all single-deviation schedules of the small programs (ceiling only: nothing can be compared below saturation)
-    small_n = (4,) if tier == 'quick' else (1, 2, 4, 8)
-    small_N = (1,) if tier == 'quick' else (1, 2)
-    for N in small_N:
-        for n in small_n:
-            for cfg in (dict(prog='sched_pool'), dict(prog='sched_cts'), dict(prog='sched_ctsl'), dict(prog='then_unready', sched='p', rel=1),
-                        dict(prog='pipe'), dict(prog='comb_cts', lf=0)):
-                runs.append(McRun(BIN, 'depth', dict(cfg, N=N, n=n), bound=1, budget=25 if tier == 'quick' else 40))
-    runs.append(McRun(BIN, 'depth', dict(prog='pipe', N=1, n=8), bound=1, mode='tsan', budget=60))
-    runs.append(McRun(BIN, 'depth', dict(prog='then_unready', sched='c', rel=1, N=1, n=4), bound=1, mode='asan', budget=60))
-    runs.append(McRun(BIN, 'depth', dict(prog='sched_cts', N=1, n=96, n0=64), bound=0, mode='asan', budget=60))
+            runs.append(McRun(BIN, 'depth', dict(cfg, N=N, n=n), bound=1, budget=15 if tier == 'quick' else 45))
     return runs
 
 
+def c46_same_depth_for_every_n(results):
+    """depth(n) == depth(64), literally: runs of one family that differ only in n must report the same lvl=/open= maxima"""
+    fam = {}
+    for r in results:
+        run = r.get('run', {})
+        params = run.get('params', {})
+        if run.get('harness') != 'depth' or run.get('bound') != 0 or run.get('mode') != 'plain' or 'n0' not in params or r.get('violations'):
+            continue
+        key = tuple(sorted((k, str(v)) for k, v in params.items() if k != 'n'))
+        vals = tuple(sorted(c for c in r.get('cover', []) if c.startswith('lvl=') or c.startswith('open=')))
+        if vals:
+            fam.setdefault(key, {})[int(params['n'])] = vals
+    bad = []
+    for key, byn in fam.items():
+        if 64 in byn:
+            for n, vals in sorted(byn.items()):
+                if vals != byn[64]:
+                    bad.append('%s: n=64 %s but n=%d %s' % (dict(key), byn[64], n, vals))
+    return 'inline depth differs between program sizes: ' + '; '.join(bad[:4]) if bad else None
+
+
 reg('C46', level='model_checking', runs=c46_runs, quick_budget_s=240, thorough_budget_s=1300,
-    technique='real pools running programs of growing size n under the controlled scheduler; per-thread nesting of task bodies measured from the stack pointer (live task frames) and by an open-body counter; the program is run for n=64 and for n in the same execution and the maxima are compared',
-    level_text='Program families: a task that schedules its successor through ThreadPool::schedule, TaskSet::schedule (0-1 workers), ConcurrentTaskSet::schedule heavy and lightweight; then-chains on a held (unready) root released on T0 or on a worker, and on a ready root, with ThreadPool / TaskSet / ConcurrentTaskSet as the schedulable; a serial 3-stage pipeline fed n items; a chain and a comb graph of n forks under SingleThread, ParallelFor and ConcurrentTaskSet executors (poolRecursiveLoadFactor 3.0 and 0); pool sizes 0, 1, 2; load multipliers 1 (forcing the inline paths) and the defaults. n in {128, 256} (thorough: up to 2048) against the n=64 baseline on the default schedule, plus every schedule with <=1 deviation for n=4 (thorough: n in {1,2,4,8}, 1-2 workers). Oracle: the number of live task frames on any one thread (and the number of open task bodies) at size n equals the value at size 64 and never exceeds 4*kMaxInlineDepth = 128. Tasks wait on nothing; T0 waits with a harness-level block so that no work is run from inside a user wait (pipeline() and the graph executors block by contract).',
-    level_note='independence from n is checked, not a particular constant; the comparison is only meaningful on the default schedule (large n), the bound-1 runs of small n check the ceiling and exercise the other paths; nesting is counted from stack addresses within one thread only (entries are dropped when a later body starts at the same or a shallower position), so bodies reached through call paths of different depth may add a small constant.',
+    technique='real pools running programs of growing size n under the controlled scheduler; per-thread nesting of task bodies measured from the stack pointer (live task frames) and by an open-body counter; within a run the bodies with index >= 64 are compared with the bodies with index < 64, across runs the maxima for different n are compared',
+    level_text='Program families: a task that schedules its successor through ThreadPool::schedule, TaskSet::schedule (0-1 workers), ConcurrentTaskSet::schedule heavy and lightweight; then-chains on a held (unready) root released on T0 or on a worker, and on a ready root, with ThreadPool / TaskSet / ConcurrentTaskSet as the schedulable; a serial 3-stage pipeline fed n items; a chain and a comb graph of n forks under SingleThread, ParallelFor and ConcurrentTaskSet executors (poolRecursiveLoadFactor 3.0 and 0); pool sizes 0, 1, 2; load multipliers 1 (forcing the inline paths) and the defaults. n=256 (thorough: 64..2048) on the default schedule, plus every schedule with <=1 deviation for n=4 on one worker (thorough: n in {1,2,4,8}, 1-2 workers). Oracle: no body with index >= 64 sees more live task frames on its thread (or more open task bodies) than the bodies with index < 64 did, the maxima reported for every n equal those for n=64, and the number of live task frames never exceeds 4*kMaxInlineDepth = 128. Tasks wait on nothing; T0 waits with a harness-level block so that no work is run from inside a user wait (pipeline() and the graph executors block by contract).',
+    level_note='independence from n is checked, not a particular constant; the comparison is only meaningful on the default schedule (large n), the bound-1 runs of small n check the ceiling and exercise the other paths; nesting is counted from stack addresses within one thread only (entries are dropped when a later body starts at the same or a shallower position), so bodies reached through call paths of different depth may add a small constant. One program per execution: the engine names locations by address, so two pools built one after the other inside one execution make replays diverge.',
     design_ref='DESIGN.md section 4, C46', assumptions=MC_ASSUME, rule=RULE,
-    guards=[need_cover('body_inside_body', 'body_inside_completion_path', 'depth_guard_saturated', 'depth_equal_to_baseline'), need_outcomes(6)])
+    guards=[need_cover('body_inside_body', 'body_inside_completion_path', 'depth_guard_saturated', 'compared_against_baseline', 'depth_equal_to_baseline'),
+            c46_same_depth_for_every_n, need_outcomes(6)])
